@@ -381,69 +381,68 @@ func (ck *Check) armedLast(rule string) {
 	ck.floor(rule, "calls in the scan body that can arm the lock", nArm, 1)
 }
 
-
 // armingRule (C02.R2, also C18.R5): the lock is armed only after the cloud step ran and returned
 // no error, on this group's own lock, after the cloud step; every return after a successful cloud
 // increase has passed through lock(); lock() has no other caller.
 func (ck *Check) armingRule(rule string) {
 	a := ck.A
-		fn := a.ScaleUp
-		sctx := ck.P.NewCtx(fn)
-		sg := ck.groupTerm(fn)
-		lockCalls := callsTo(fn, a.Lock)
-		cloudCalls := callsTo(fn, a.CloudStep)
-		if len(lockCalls) == 0 || len(cloudCalls) != 1 {
-			ck.fail(rule, funcID(fn)+"/arming", "", funcID(fn), "ScaleUp calls the cloud step once and arms the lock", fmt.Sprintf("%d lock calls, %d cloud-step calls", len(lockCalls), len(cloudCalls)), "the lock is never armed after a cloud increase (or the cloud step is not unique)")
-		} else {
-			cloud := cloudCalls[0].(*ssa.Call)
-			errNil := cmpFormula(token.EQL, &Term{Kind: "extract", Name: "1", Args: []*Term{sctx.Term(cloud)}}, &Term{Kind: "const", Name: "nil"})
-			// find the exact atom used in the function (error-typed nil const)
-			for _, b := range fn.Blocks {
-				for _, at := range sctx.BlockPC(b).Atoms() {
-					if at.Kind == "cmp" && at.Name == "==" && hasConstStr(at, "nil") {
-						for _, x := range at.Args {
-							if isExtractOf(x, 1, func(t *Term) bool { return t.Key() == sctx.Term(cloud).Key() }) {
-								errNil = Atom(at)
-							}
+	fn := a.ScaleUp
+	sctx := ck.P.NewCtx(fn)
+	sg := ck.groupTerm(fn)
+	lockCalls := callsTo(fn, a.Lock)
+	cloudCalls := callsTo(fn, a.CloudStep)
+	if len(lockCalls) == 0 || len(cloudCalls) != 1 {
+		ck.fail(rule, funcID(fn)+"/arming", "", funcID(fn), "ScaleUp calls the cloud step once and arms the lock", fmt.Sprintf("%d lock calls, %d cloud-step calls", len(lockCalls), len(cloudCalls)), "the lock is never armed after a cloud increase (or the cloud step is not unique)")
+	} else {
+		cloud := cloudCalls[0].(*ssa.Call)
+		errNil := cmpFormula(token.EQL, &Term{Kind: "extract", Name: "1", Args: []*Term{sctx.Term(cloud)}}, &Term{Kind: "const", Name: "nil"})
+		// find the exact atom used in the function (error-typed nil const)
+		for _, b := range fn.Blocks {
+			for _, at := range sctx.BlockPC(b).Atoms() {
+				if at.Kind == "cmp" && at.Name == "==" && hasConstStr(at, "nil") {
+					for _, x := range at.Args {
+						if isExtractOf(x, 1, func(t *Term) bool { return t.Key() == sctx.Term(cloud).Key() }) {
+							errNil = Atom(at)
 						}
 					}
 				}
 			}
-			for _, lc := range lockCalls {
-				key := ck.P.siteKey(lc)
-				ck.entails(rule, key, lc, sctx.PC(lc), And(sctx.PC(cloud), errNil), "PC(lock) ⇒ the cloud step ran and returned err == nil")
-				recv := sctx.Term(lc.Common().Args[0])
-				if recv.Kind == "unop" {
-					recv = recv.Args[0]
-				}
-				okRecv := sg != nil && recv.Kind == "field" && recv.Obj == field(a.TState, "scaleUpLock") && recv.Args[0].Key() == sg.Key()
-				ck.cond(okRecv, rule, key+"/receiver", ck.P.instrPos(lc), funcID(fn), "the armed lock is this group's scaleUpLock", recv.String(), "")
-				ck.cond(dominatesInstr(cloud, lc), rule, key+"/order", ck.P.instrPos(lc), funcID(fn), "the cloud step precedes lock()", "", "the lock is armed before the cloud provider accepted the request")
-			}
-			// must-pass-through: every return reached after a successful cloud step has passed lock()
-			lockPC := FFalse
-			for _, lc := range lockCalls {
-				lockPC = Or(lockPC, sctx.PC(lc))
-			}
-			for _, b := range fn.Blocks {
-				r, ok := b.Instrs[len(b.Instrs)-1].(*ssa.Return)
-				if !ok {
-					continue
-				}
-				pre := And(sctx.BlockPC(b), sctx.PC(cloud), errNil)
-				if sat, _ := Satisfiable(pre); !sat {
-					continue
-				}
-				ck.entails(rule, fmt.Sprintf("%s/return@block%d/armed", funcID(fn), b.Index), r, pre, lockPC, "every return after a successful cloud increase has passed through lock()")
-			}
 		}
-		var bad []string
-		for _, c := range ck.P.callers[a.Lock] {
-			if c != a.ScaleUp {
-				bad = append(bad, funcID(c))
+		for _, lc := range lockCalls {
+			key := ck.P.siteKey(lc)
+			ck.entails(rule, key, lc, sctx.PC(lc), And(sctx.PC(cloud), errNil), "PC(lock) ⇒ the cloud step ran and returned err == nil")
+			recv := sctx.Term(lc.Common().Args[0])
+			if recv.Kind == "unop" {
+				recv = recv.Args[0]
 			}
+			okRecv := sg != nil && recv.Kind == "field" && recv.Obj == field(a.TState, "scaleUpLock") && recv.Args[0].Key() == sg.Key()
+			ck.cond(okRecv, rule, key+"/receiver", ck.P.instrPos(lc), funcID(fn), "the armed lock is this group's scaleUpLock", recv.String(), "")
+			ck.cond(dominatesInstr(cloud, lc), rule, key+"/order", ck.P.instrPos(lc), funcID(fn), "the cloud step precedes lock()", "", "the lock is armed before the cloud provider accepted the request")
 		}
-		ck.cond(len(bad) == 0, rule, "lock/callers", "", funcID(a.Lock), "lock() is called only by ScaleUp", strings.Join(bad, ", "), "the lock is armed from "+strings.Join(bad, ", "))
+		// must-pass-through: every return reached after a successful cloud step has passed lock()
+		lockPC := FFalse
+		for _, lc := range lockCalls {
+			lockPC = Or(lockPC, sctx.PC(lc))
+		}
+		for _, b := range fn.Blocks {
+			r, ok := b.Instrs[len(b.Instrs)-1].(*ssa.Return)
+			if !ok {
+				continue
+			}
+			pre := And(sctx.BlockPC(b), sctx.PC(cloud), errNil)
+			if sat, _ := Satisfiable(pre); !sat {
+				continue
+			}
+			ck.entails(rule, fmt.Sprintf("%s/return@block%d/armed", funcID(fn), b.Index), r, pre, lockPC, "every return after a successful cloud increase has passed through lock()")
+		}
+	}
+	var bad []string
+	for _, c := range ck.P.callers[a.Lock] {
+		if c != a.ScaleUp {
+			bad = append(bad, funcID(c))
+		}
+	}
+	ck.cond(len(bad) == 0, rule, "lock/callers", "", funcID(a.Lock), "lock() is called only by ScaleUp", strings.Join(bad, ", "), "the lock is armed from "+strings.Join(bad, ", "))
 }
 
 // lockBodies: C02.R3 and R5.
@@ -625,48 +624,58 @@ func (ck *Check) lockConstruction(rule string) {
 				case fMin:
 					n++
 					key := fmt.Sprintf("%s/minimumLockDuration-store", funcID(fn))
+					// the builds this store takes part in: the storing function itself, or — when the
+					// value is a parameter of a constructor — every call of that constructor
+					type build struct {
+						fn     *ssa.Function
+						ctx    *Ctx
+						v      *Term
+						holder ssa.Value
+						at     ssa.Instruction
+					}
+					var builds []build
 					v := ctx.Term(st.Val)
-					okCall := v.Kind == "call" && v.Fn != nil && v.Fn.Name() == coolName && len(v.Args) == 1
-					if !okCall {
-						ck.fail(rule, key, ck.P.instrPos(st), funcID(fn), "minimumLockDuration ← <options>.ScaleUpCoolDownPeriodDuration()", v.String(), "the lock is configured with something other than scale_up_cool_down_period")
-						continue
-					}
-					// the same options value becomes .Opts of the enclosing NodeGroupState literal
-					lockAddr := st.Addr.(*ssa.FieldAddr).X // &state.scaleUpLock
-					var stateBase ssa.Value
-					if fa, ok := lockAddr.(*ssa.FieldAddr); ok {
-						stateBase = fa.X
-					} else if la, ok := lockAddr.(*ssa.Alloc); ok {
-						// a local scaleLock value copied whole into <state>.scaleUpLock
-						for _, r := range *la.Referrers() {
-							ld, ok := r.(*ssa.UnOp)
-							if !ok || ld.Op != token.MUL {
-								continue
+					if pi := paramIndex(fn, v); pi >= 0 {
+						for _, caller := range ck.P.callers[fn] {
+							cctx := ck.P.NewCtx(caller)
+							for _, ci := range callsIn(caller, func(ci ssa.CallInstruction) bool { return ci.Common().StaticCallee() == fn }) {
+								if cv, ok := ci.(*ssa.Call); ok && pi < len(cv.Call.Args) {
+									builds = append(builds, build{caller, cctx, cctx.Term(cv.Call.Args[pi]), cv, cv})
+								}
 							}
-							for _, rr := range *ld.Referrers() {
-								if s3, ok := rr.(*ssa.Store); ok && s3.Val == ssa.Value(ld) {
-									if fa, ok := s3.Addr.(*ssa.FieldAddr); ok && fieldOfAddr(fa) == field(a.TState, "scaleUpLock") {
-										stateBase = fa.X
+						}
+						if len(builds) == 0 {
+							ck.fail(rule, key, ck.P.instrPos(st), funcID(fn), "minimumLockDuration ← <options>.ScaleUpCoolDownPeriodDuration()", v.String(), "the lock constructor has no resolved call site")
+							continue
+						}
+					} else {
+						builds = []build{{fn, ctx, v, st.Addr.(*ssa.FieldAddr).X, st}}
+					}
+					for _, bd := range builds {
+						v := bd.v
+						okCall := v.Kind == "call" && v.Fn != nil && v.Fn.Name() == coolName && len(v.Args) == 1
+						if !okCall {
+							ck.fail(rule, key, ck.P.instrPos(bd.at), funcID(bd.fn), "minimumLockDuration ← <options>.ScaleUpCoolDownPeriodDuration()", v.String(), "the lock is configured with something other than scale_up_cool_down_period")
+							continue
+						}
+						// the same options value becomes .Opts of the enclosing NodeGroupState literal
+						stateBase := lockStateBase(bd.holder, field(a.TState, "scaleUpLock"), 0)
+						var optsVal *Term
+						if stateBase != nil {
+							for _, r := range *stateBase.Referrers() {
+								if fa, ok := r.(*ssa.FieldAddr); ok && fieldOfAddr(fa) == fOpts {
+									for _, rr := range *fa.Referrers() {
+										if s2, ok := rr.(*ssa.Store); ok && s2.Addr == ssa.Value(fa) {
+											optsVal = bd.ctx.Term(s2.Val)
+										}
 									}
 								}
 							}
 						}
+						recv := v.Args[0]
+						same := optsVal != nil && ((optsVal.Kind == "deref" && optsVal.Args[0].Key() == recv.Key()) || (recv.Kind == "unop" && recv.Name == "&" && recv.Args[0].Key() == optsVal.Key()))
+						ck.cond(same, rule, key, ck.P.instrPos(bd.at), funcID(bd.fn), "the cool-down comes from the same options value that becomes the group's Opts", fmt.Sprintf("receiver %s, Opts ← %v", recv, optsVal), "the lock of one group is timed by another configuration")
 					}
-					var optsVal *Term
-					if stateBase != nil {
-						for _, r := range *stateBase.Referrers() {
-							if fa, ok := r.(*ssa.FieldAddr); ok && fieldOfAddr(fa) == fOpts {
-								for _, rr := range *fa.Referrers() {
-									if s2, ok := rr.(*ssa.Store); ok && s2.Addr == ssa.Value(fa) {
-										optsVal = ctx.Term(s2.Val)
-									}
-								}
-							}
-						}
-					}
-					recv := v.Args[0]
-					same := optsVal != nil && ((optsVal.Kind == "deref" && optsVal.Args[0].Key() == recv.Key()) || (recv.Kind == "unop" && recv.Name == "&" && recv.Args[0].Key() == optsVal.Key()))
-					ck.cond(same, rule, key, ck.P.instrPos(st), funcID(fn), "the cool-down comes from the same options value that becomes the group's Opts", fmt.Sprintf("receiver %s, Opts ← %v", recv, optsVal), "the lock of one group is timed by another configuration")
 				}
 			}
 		}
@@ -1173,4 +1182,54 @@ func (ck *Check) findInvoke(ctx *Ctx, fn *ssa.Function, recv *Term, method strin
 		}
 	}
 	return out
+}
+
+// paramIndex: the index of fn's parameter that the term stands for (a spilled by-value parameter
+// counts as the parameter), or -1.
+func paramIndex(fn *ssa.Function, t *Term) int {
+	if t == nil {
+		return -1
+	}
+	for i, p := range fn.Params {
+		if t.Key() == paramTerm(p).Key() {
+			return i
+		}
+	}
+	return -1
+}
+
+// lockStateBase: the NodeGroupState object (its address) whose scaleUpLock field the lock
+// represented by holder ends up in. holder is the lock's address (&state.scaleUpLock, or a local
+// scaleLock copied whole into it) or the lock value itself (the result of a constructor call).
+func lockStateBase(holder ssa.Value, fLock *types.Var, depth int) ssa.Value {
+	if holder == nil || depth > 4 {
+		return nil
+	}
+	if fa, ok := holder.(*ssa.FieldAddr); ok {
+		if fieldOfAddr(fa) == fLock {
+			return fa.X
+		}
+		return nil
+	}
+	if holder.Referrers() == nil {
+		return nil
+	}
+	_, isAddr := holder.(*ssa.Alloc)
+	for _, r := range *holder.Referrers() {
+		switch x := r.(type) {
+		case *ssa.UnOp: // load of a local lock
+			if isAddr && x.Op == token.MUL {
+				if b := lockStateBase(x, fLock, depth+1); b != nil {
+					return b
+				}
+			}
+		case *ssa.Store:
+			if x.Val == holder {
+				if b := lockStateBase(x.Addr, fLock, depth+1); b != nil {
+					return b
+				}
+			}
+		}
+	}
+	return nil
 }
